@@ -189,7 +189,8 @@ theorem pg_substr2 (s : List Char) (a : Int) :
   omega
 
 /-- MySQL, three-argument form (`n` = character count; the byte-counting `LENGTH()` is dealt with by the caller) -/
-theorem mysql_substr3 (s : List Char) (raw : Bool) (a b : Int) (hg : -(s.length : Int) ≤ a) :
+theorem mysql_substr3 (s : List Char) (raw : Bool) (a b : Int) (hg : -(s.length : Int) ≤ a)
+    (hmix : a < 0 → 0 ≤ b → (s.length : Int) ≤ b) :
     substr3V .mysql s (indexVal .mysql s.length a) (lenVal .mysql s.length raw a b) = .ok (.str (pySlice s (some a) (some b))) := by
   obtain ⟨p, hp⟩ : ∃ p, p = indexVal .mysql s.length a := ⟨_, rfl⟩
   obtain ⟨l, hl⟩ : ∃ l, l = lenVal .mysql s.length raw a b := ⟨_, rfl⟩
@@ -236,5 +237,57 @@ theorem mysql_substr2 (s : List Char) (a : Int) (hg : -(s.length : Int) ≤ a) :
         rw [← hs, sliceNat_eq_win _ _ _ (by omega) (by omega)]
         apply win_eq_pySlice_none; intro k hk0 hkn; unfold inPyFrom
         omega
+
+theorem strVal_oracle_nil : strVal .oracle [] = .null := by simp [strVal]
+theorem strVal_pg (s : List Char) : strVal .pg s = .str s := by simp [strVal]
+theorem strVal_mysql (s : List Char) : strVal .mysql s = .str s := by simp [strVal]
+theorem strVal_sqlite (s : List Char) : strVal .sqlite s = .str s := by simp [strVal]
+
+/-- Oracle's substr is MySQL's with `''` read as NULL, as long as the position is not 0 -/
+theorem oracle_of_mysql3 (s : List Char) (p l : Int) (hp : p ≠ 0) (r : List Char)
+    (h : substr3V .mysql s p l = .ok (.str r)) : substr3V .oracle s p l = .ok (strVal .oracle r) := by
+  simp only [substr3V, hp, false_or, if_false] at h ⊢
+  by_cases h1 : l < 1
+  · simp only [if_pos h1] at h ⊢; cases h; simp [strVal]
+  · simp only [if_neg h1] at h ⊢
+    by_cases h2 : p > 0
+    · simp only [if_pos h2] at h ⊢; cases h; rfl
+    · simp only [if_neg h2] at h ⊢
+      by_cases h3 : -p > (s.length : Int)
+      · simp only [if_pos h3] at h ⊢; cases h; simp [strVal]
+      · simp only [if_neg h3] at h ⊢; cases h; rfl
+
+theorem oracle_of_mysql2 (s : List Char) (p : Int) (hp : p ≠ 0) (r : List Char)
+    (h : substr2V .mysql s p = .ok (.str r)) : substr2V .oracle s p = .ok (strVal .oracle r) := by
+  simp only [substr2V, hp, if_false] at h ⊢
+  by_cases h2 : p > 0
+  · simp only [if_pos h2] at h ⊢; cases h; rfl
+  · simp only [if_neg h2] at h ⊢
+    by_cases h3 : -p > (s.length : Int)
+    · simp only [if_pos h3] at h ⊢; cases h; simp [strVal]
+    · simp only [if_neg h3] at h ⊢; cases h; rfl
+
+theorem indexVal_ne_zero (d : Dialect) (h : d ≠ .pg) (n a : Int) : indexVal d n a ≠ 0 := by
+  rw [indexVal_other d h]; omega
+
+theorem oracle_substr3 (s : List Char) (raw : Bool) (a b : Int) (hg : -(s.length : Int) ≤ a)
+    (hmix : a < 0 → 0 ≤ b → (s.length : Int) ≤ b) :
+    substr3V .oracle s (indexVal .oracle s.length a) (lenVal .oracle s.length raw a b)
+      = .ok (strVal .oracle (pySlice s (some a) (some b))) := by
+  apply oracle_of_mysql3 _ _ _ (indexVal_ne_zero _ (by decide) _ _)
+  have e1 : indexVal .oracle s.length a = indexVal .mysql s.length a := by
+    rw [indexVal_other _ (by decide), indexVal_other _ (by decide)]
+  have e2 : lenVal .oracle s.length raw a b = lenVal .mysql s.length raw a b := by
+    unfold lenVal; rw [e1]
+  rw [e1, e2]
+  exact mysql_substr3 s raw a b hg hmix
+
+theorem oracle_substr2 (s : List Char) (a : Int) (hg : -(s.length : Int) ≤ a) :
+    substr2V .oracle s (indexVal .oracle s.length a) = .ok (strVal .oracle (pySlice s (some a) none)) := by
+  apply oracle_of_mysql2 _ _ (indexVal_ne_zero _ (by decide) _ _)
+  have e1 : indexVal .oracle s.length a = indexVal .mysql s.length a := by
+    rw [indexVal_other _ (by decide), indexVal_other _ (by decide)]
+  rw [e1]
+  exact mysql_substr2 s a hg
 
 end PonyVerif.Model.SqlStr
